@@ -242,3 +242,49 @@ package io
 //@   ensures [nothing_of_the_last_use_is_kept] result == dec && dec.reader == nil && dec.head == 0 && dec.tail == 0 && dec.Error == nil &&
 //@       dec.RealType == 0 && dec.LongType == 0 && dec.MapType == 0 && dec.StructType == 0 && dec.ListType == 0
 //@   ensures [callers_input_is_released] old(dec.reader) == nil ==> dec.buf == nil
+
+// ---- numbers off the wire (C04, C05) ------------------------------------------------------
+
+// the digit table: 0..9 for '0'..'9', 255 for every other byte (established by init)
+//@ global forall(b, 0, 256, intDigits[b] == ite(48 <= b && b <= 57, b - 48, 255))
+
+//@ func init#1
+//@   prop C04
+//@   nopanic
+//@   modifies intDigits[*]
+
+// readUint64(c): c is the first byte of the number (already consumed). Consumes the digits that
+// follow and the byte that ends them; where it stops is a function of the stream alone: every
+// byte it passed over is a digit and the last one consumed is not (or the input ended, with an
+// error). No index leaves the window whatever the bytes are.
+//@ func (*Decoder).readUint64
+//@   prop C04 C05
+//@   nopanic
+//@   use decwf
+//@   let lp0 = ghost.rpos[ival(dec.reader)] - dec.tail + dec.head
+//@   modifies @DECWIN, dec.buf[*]
+//@   loop 1 invariant [shape] 0 <= dec.head && dec.head <= dec.tail && dec.tail <= len(dec.buf) && (dec.reader != nil ==> len(dec.buf) > 0 && ghost.rpos[ival(dec.reader)] >= dec.tail)
+//@   loop 1 invariant [coupling] dec.reader != nil ==> forall(j, off(dec.buf) + dec.head, off(dec.buf) + dec.tail, mem(dec.buf, j) == ghost.rstream[ival(dec.reader)][ghost.rpos[ival(dec.reader)] - dec.tail - off(dec.buf) + j])
+//@   loop 1 invariant [only_digits_passed] dec.reader != nil ==> ghost.rpos[ival(dec.reader)] - dec.tail + dec.head >= lp0 &&
+//@       forall(q, lp0, ghost.rpos[ival(dec.reader)] - dec.tail + dec.head, intDigits[ghost.rstream[ival(dec.reader)][q]] != 255)
+//@   loop 1 invariant [memory] dec.reader == nil ==> same(dec.buf, old(dec.buf)) && dec.tail == old(dec.tail) && dec.head == old(dec.head)
+//@   loop 1 invariant [sticky] old(dec.Error) != nil ==> dec.Error != nil
+//@   loop 1 invariant [bufid] arr(dec.buf) == old(arr(dec.buf)) || isnew(arr(dec.buf))
+//@   loop 2 invariant [scan] dec.head <= p && p <= dec.tail && forall(j, off(dec.buf) + dec.head, off(dec.buf) + p, intDigits[mem(dec.buf, j)] != 255)
+//@   ensures [stream_stops_after_the_first_non_digit] dec.reader != nil && intDigits[c] != 255 ==>
+//@       ghost.rpos[ival(dec.reader)] - dec.tail + dec.head >= lp0 &&
+//@       forall(q, lp0, ghost.rpos[ival(dec.reader)] - dec.tail + dec.head - 1, intDigits[ghost.rstream[ival(dec.reader)][q]] != 255) &&
+//@       (dec.Error != nil || (ghost.rpos[ival(dec.reader)] - dec.tail + dec.head > lp0 && intDigits[ghost.rstream[ival(dec.reader)][ghost.rpos[ival(dec.reader)] - dec.tail + dec.head - 1]] == 255))
+//@   ensures [not_a_number_consumes_nothing] intDigits[c] == 255 ==> value == 0 && dec.head == old(dec.head) && dec.tail == old(dec.tail) && same(dec.buf, old(dec.buf)) && ghost.rpos[ival(dec.reader)] == old(ghost.rpos[ival(dec.reader)])
+//@   ensures [memory_stops_after_the_first_non_digit] dec.reader == nil && intDigits[c] != 255 ==> old(dec.head) <= dec.head &&
+//@       forall(j, off(dec.buf) + old(dec.head), off(dec.buf) + dec.head - 1, intDigits[mem(dec.buf, j)] != 255)
+
+//@ template decthin
+//@   prop C04 C05
+//@   nopanic
+//@   use decwf
+//@   modifies @DECWIN, dec.buf[*]
+//@   ensures [position_never_goes_back] dec.reader != nil ==> ghost.rpos[ival(dec.reader)] - dec.tail + dec.head >= old(ghost.rpos[ival(dec.reader)] - dec.tail + dec.head)
+//@   ensures [memory_position_never_goes_back] dec.reader == nil ==> dec.head >= old(dec.head)
+
+//@ funcs \(\*Decoder\)\.Read(Int|Uint)(8|16|32|64)? : template decthin
